@@ -373,6 +373,26 @@ def run(ctx):
     if ctx.shard == 0:
         for cls, init, steps in DIRECTED:
             ctx.run_case(lambda c, k: episode(c, k), {'cls': cls, 'init': init, 'steps': [list(x) for x in steps]})
+    # byte-periodic data searched byte-aligned for a pattern of two or three periods (occurrences that overlap by whole bytes)
+    for i in range(ctx.scale(40, 600)):
+        rng = ctx.rng
+        unit = rng.choice(['00000000', '10101011', '11111111', util.rb(rng, 8)])
+        nbytes = rng.choice([3, 4, 5, 7, 9, 16])
+        data = unit * nbytes
+        if rng.random() < 0.4:
+            k = rng.randrange(nbytes)
+            data = data[:8 * k] + util.rb(rng, 8) + data[8 * k + 8:]
+        if rng.random() < 0.2:
+            data = data + util.rb(rng, rng.choice([1, 3, 7]))
+        pat = unit * rng.choice([2, 2, 3])
+        new = rng.choice(['1' * 16, '0' * 8, '', '01' * 8])
+        on = rng.random() < 0.8
+        steps = [[on, 'probe', 'findall', [['str', pat], None, None, rng.choice([None, None, 1, 2]), True]],
+                 [on, 'probe', rng.choice(['find', 'rfind']), [['Bits', pat], rng.choice([None, 8]), None, None, True]],
+                 [on, 'mut', 'replace', [['str', pat], ['str', new], None, None, rng.choice([None, None, 1]), True]],
+                 [on, 'probe', 'findall', [['str', unit], None, None, None, True]]]
+        ctx.run_case(lambda c, k: episode(c, k), {'cls': rng.choice(util.MUTABLE), 'init': data, 'steps': steps})
+    if ctx.shard == 0:
         # findall over data longer than the 8192-bit reverse chunk
         long = ('0' * 63 + '1') * 400
         ctx.run_case(lambda c, k: episode(c, k), {'cls': 'Bits', 'init': long, 'steps': [
